@@ -48,9 +48,14 @@ pub fn run_host_process<'arena>(
     let status = match wait_for_child(&mut child, caps.wait_poll_ms, spec.timeout_ms, &overflow) {
         Ok(status) => status,
         Err(err) => {
-            let _ = join_writer(writer);
-            let _ = join_capture(stdout, ProcessStream::Stdout, &overflow, arena);
-            let _ = join_capture(stderr, ProcessStream::Stderr, &overflow, arena);
+            // The child has been killed and reaped and its output is not wanted: do not wait for
+            // the helper threads. Joining them would wait for whoever else still holds the pipes
+            // (a grandchild that inherited them): the capture readers see end of file, and the
+            // stdin writer a broken pipe, only when the last holder lets go, which may be never.
+            // The threads own everything they use; detached, each ends when its pipe does.
+            drop(writer);
+            drop(stdout);
+            drop(stderr);
             return Err(err);
         }
     };
